@@ -124,9 +124,12 @@ class Ctx:
         cs = f.family_calls_to(pattern) if family else f.calls_to(pattern)
         n = len(cs)
         want = exact if exact is not None else floor
-        if n < want and not family:
+        pats = [pattern] if isinstance(pattern, str) else list(pattern)
+        if n < want and not family and all(self.facts.has_fn(p_) for p_ in pats):
             # helper extraction: a call to a local function every success path of which passes
-            # `pattern` (must-call summary, depth 3) counts as a site of `pattern`
+            # `pattern` (must-call summary, depth 3) counts as a site of `pattern`.  Only for
+            # callees defined in this crate: a library routine such as `copy_from_slice` is called
+            # inside many unrelated helpers, which would then stand in for the missing call.
             summ = self._summary(pattern)
             extra = [c for c in f.calls if c.callee in summ and not c.t.get('virt') and not f.blocks[c.bb]['c'] and c not in cs]
             if extra:
